@@ -65,14 +65,19 @@ fn perform(mp4: &mut Mp4Reader<MonReader>, c: Call) -> String {
 }
 
 fn open(bytes: &Rc<Vec<u8>>, init: &Option<Rc<Vec<u8>>>) -> Option<Mp4Reader<MonReader>> {
+    open_ctl(bytes, init, crate::streams::Ctl::new())
+}
+
+/// open with a control block the caller keeps (to inject a transient I/O error later on)
+fn open_ctl(bytes: &Rc<Vec<u8>>, init: &Option<Rc<Vec<u8>>>, ctl: Rc<crate::streams::Ctl>) -> Option<Mp4Reader<MonReader>> {
     let n = bytes.len() as u64;
     let data = bytes.clone();
     let r = match init {
-        None => panicmon::catch(move || Mp4Reader::read_header(MonReader::plain(data), n)),
+        None => panicmon::catch(move || Mp4Reader::read_header(MonReader::new(data, ctl), n)),
         Some(i) => {
             let il = i.len() as u64;
             let base = Mp4Reader::read_header(MonReader::plain(i.clone()), il).ok()?;
-            panicmon::catch(move || base.read_fragment_header(MonReader::plain(data), n))
+            panicmon::catch(move || base.read_fragment_header(MonReader::new(data, ctl), n))
         }
     };
     match r {
@@ -176,7 +181,8 @@ fn parent_history_case(id: &str, name: &str, init: &Rc<Vec<u8>>, segment: &Rc<Ve
 
 fn reader_case(id: &str, name: &str, bytes: &Rc<Vec<u8>>, init: &Option<Rc<Vec<u8>>>, nsched: u64, rng: &mut Rng, rep: &mut Report) {
     rep.begin(id);
-    let mut long_lived = match open(bytes, init) {
+    let ctl = crate::streams::Ctl::new();
+    let mut long_lived = match open_ctl(bytes, init, ctl.clone()) {
         Some(m) => m,
         None => {
             rep.add("subjects_not_openable", 1);
@@ -250,7 +256,31 @@ fn reader_case(id: &str, name: &str, bytes: &Rc<Vec<u8>>, init: &Option<Rc<Vec<u
         if patterned {
             rep.add("calls_placed_relative_to_recent_history", 1);
         }
+        // one call in 25 meets a transient I/O error of the stream (a genuine Err from read or
+        // seek at its first, second or third stream operation). Its own result is not compared
+        // - a fresh reader has no such fault - but it is a "call that fails" of the history:
+        // everything asked afterwards must still be answered as a fresh reader answers it.
+        let inject = rng.chance(1, 25);
+        if inject {
+            ctl.fault_kind.set(crate::streams::FaultKind::Error);
+            ctl.fault_fired.set(None);
+            ctl.fault_at.set(Some(ctl.ops.get() + rng.below(3)));
+        }
         let got = perform(&mut long_lived, call);
+        if inject {
+            ctl.fault_at.set(None);
+            if ctl.fault_fired.get().is_some() {
+                ctl.fault_fired.set(None);
+                rep.add("calls_hit_by_an_injected_io_error", 1);
+                if let Call::ReadSample(ct, cs) = call {
+                    last_bad = Some((ct, cs));
+                }
+                last_call = Some(call);
+                prev_kind = call.kind();
+                prev_ok = false;
+                continue;
+            }
+        }
         let want = match fresh.get(&call) {
             Some(w) => w.clone(),
             None => {
@@ -375,6 +405,71 @@ pub fn run(args: &Args) -> i32 {
         let fm = crate::model::gen_frag_movie(&mut rng, 3, 2, 3, same_trex);
         let b = crate::model::build_fragmented(&fm);
         parent_history_case(&id, "generated fragmented movie", &Rc::new(b.init.clone()), &Rc::new(b.segment.clone()), Some(&Rc::new(b.whole.bytes.clone())), &mut rep);
+        if rep.too_many_fails() {
+            return rep.finish();
+        }
+    }
+    // ---- (e) opening the same bytes many times: every open builds new hash maps (new random
+    // state), so an answer that depends on map iteration order differs between opens. Subjects:
+    // fragmented movies with >= 2 tracks in which one track fragment names a track the movie
+    // does not have (the one place where the reader has to look a track up by a foreign key),
+    // and the unmodified movies.
+    let ne = args.scale(6_000, 100_000);
+    for g in 0..ne {
+        idx += 1;
+        if !args.mine(idx) {
+            continue;
+        }
+        let id = format!("reopen:{}", g);
+        if !args.want(&id) {
+            continue;
+        }
+        rep.begin(&id);
+        let mut rng = Rng::derive(args.seed, 0x15E, g);
+        let fm = crate::model::gen_frag_movie(&mut rng, 3, 3, 3, true);
+        let b = crate::model::build_fragmented(&fm);
+        let mut bytes = b.whole.bytes.clone();
+        let foreign = g % 2 == 0;
+        if foreign {
+            // the track_ID field of one tfhd
+            let cands: Vec<&crate::refenc::Field> = b.whole.fields.iter().filter(|f| f.path.contains("tfhd") && f.path.ends_with("track_ID")).collect();
+            if let Some(f) = cands.get(rng.usize_below(cands.len().max(1))) {
+                crate::hostile::put(&mut bytes, f.off, f.width, *rng.pick(&[0u64, 7777, 0xFFFF_FFFF, 0x8000_0000]));
+            }
+        }
+        let data = Rc::new(bytes);
+        let render_open = |data: &Rc<Vec<u8>>| -> String {
+            match panicmon::catch(|| Mp4Reader::read_header(MonReader::plain(data.clone()), data.len() as u64)) {
+                Ok(Ok(mut r)) => match panicmon::catch(|| crate::readcheck::full_transcript(&mut r)) {
+                    Ok(t) => {
+                        let mut ids: Vec<u32> = r.tracks().keys().cloned().collect();
+                        ids.sort();
+                        let mut s = String::new();
+                        for t in ids {
+                            let tr = &r.tracks()[&t];
+                            s.push_str(&format!("t{} trafs={} moofs={:?}\n", t, tr.trafs.len(), tr.moof_offsets));
+                        }
+                        s + &t
+                    }
+                    Err(p) => format!("PANIC {}: {}", p.site(), p.msg),
+                },
+                Ok(Err(e)) => format!("open error: {:?}: {}", std::mem::discriminant(&e), e),
+                Err(p) => format!("PANIC {}: {}", p.site(), p.msg),
+            }
+        };
+        let first = render_open(&data);
+        for k in 1..8 {
+            let again = render_open(&data);
+            if again != first {
+                let line = again.lines().zip(first.lines()).position(|(a, b)| a != b).unwrap_or(0);
+                rep.fail("C15", &id, "two_opens_differ", json!({"tracks": fm.movie.tracks.len(), "foreign_track_id_in_a_tfhd": foreign, "open": k,
+                    "this_open": again.lines().nth(line).unwrap_or("").chars().take(200).collect::<String>(), "first_open": first.lines().nth(line).unwrap_or("").chars().take(200).collect::<String>()}));
+                break;
+            }
+        }
+        rep.add("subjects_opened_eight_times", 1);
+        rep.cover_nt(hash_str(&format!("reopen|{}|{}|{}", foreign, fm.movie.tracks.len(), first.starts_with("open error"))));
+        rep.end();
         if rep.too_many_fails() {
             return rep.finish();
         }
